@@ -76,6 +76,16 @@ def plan(tier, seed):
         "kind": "mcx", "mode": "pmap3", "thr": thr, "eps": eps, "eigh": eigh,
         "P": P, "depth": depth, "maxf": maxf, "part": "engineA_pmap3",
         "profile": {"x64": False, "devices": 3}, "weight": 80})
+  # jax_enable_x64 with thresholds that float32 rounds down (0.7, 0.01) and
+  # up (0.1): the decision must not depend on the dtype the threshold is
+  # compared in; interval 2 so that non-refresh steps occur
+  for mode, thr in itertools.product(["rep", "quant", "sharded"],
+                                     [0.7, 0.01]):
+    tasks.append({
+        "name": "A/%s/thr%g/eps1e-06/newton/P2/f64" % (mode, thr),
+        "kind": "mcx", "mode": mode, "thr": thr, "eps": 1e-6, "eigh": False,
+        "P": 2, "depth": depth, "maxf": maxf, "part": "engineA_" + mode,
+        "profile": {"x64": True}, "weight": 50})
   # all statistics 1x1 (block size 1): the root routine has a shortcut for it
   for mode, thr, eps in itertools.product(["rep", "quant", "sharded"],
                                           [0.1, 1e30], [1e-6, 0.0]):
